@@ -325,6 +325,89 @@ async fn burst(ctx: &Ctx, rng: &mut Rng, hid: usize) {
     }
 }
 
+/// Several tasks race to register the same fresh names for different processes: each name is granted exactly
+/// once, and it resolves to the process it was granted to.
+async fn name_race(ctx: &Ctx, rng: &mut Rng, hid: usize) {
+    ctx.beat(&format!("name-race/{}", hid));
+    let mut node = Node::new(format!("race{}@127.0.0.1", hid), "cookie");
+    if let Err(e) = node.start(0).await {
+        ctx.inconclusive(&format!("Node::start failed: {}", e));
+        return;
+    }
+    let node = Arc::new(node);
+    let log: Arc<Log> = Arc::new(Log::default());
+    let tasks = 2 + rng.below(5);
+    let names = *rng.pick(&[150usize, 400, 1200]);
+    let mut pids = Vec::new();
+    for _ in 0..tasks {
+        match spawn_recorder(&node, &log).await {
+            Some(p) => pids.push(p),
+            None => {
+                ctx.inconclusive("spawn failed");
+                return;
+            }
+        }
+    }
+    let barrier = Arc::new(tokio::sync::Barrier::new(tasks));
+    let mut hs = Vec::new();
+    for (t, pid) in pids.iter().enumerate() {
+        let (node, pid, barrier) = (node.clone(), pid.clone(), barrier.clone());
+        hs.push(tokio::spawn(async move {
+            barrier.wait().await;
+            let mut won: Vec<usize> = Vec::new();
+            for i in 0..names {
+                // a few lookups in between, like real callers do (and to vary where a task gets descheduled)
+                if (i + t) % 3 == 0 {
+                    let _ = node.whereis(&Atom::new(format!("r{}", i.saturating_sub(1)))).await;
+                }
+                if node.register(Atom::new(format!("r{}", i)), pid.clone()).await.is_ok() {
+                    won.push(i);
+                }
+            }
+            won
+        }));
+    }
+    let mut granted: Vec<Vec<usize>> = vec![Vec::new(); names];
+    for (t, h) in hs.into_iter().enumerate() {
+        match tokio::time::timeout(Duration::from_secs(60), h).await {
+            Ok(Ok(won)) => {
+                for i in won {
+                    granted[i].push(t);
+                }
+            }
+            _ => {
+                ctx.viol("C18:names:race-stalled", "a registering task did not finish within 60 s", json!({"race": hid}));
+                return;
+            }
+        }
+    }
+    ctx.eval(names as u64);
+    ctx.class(&format!("name-race/{}tasks/{}names", tasks, names));
+    let twice: Vec<usize> = (0..names).filter(|i| granted[*i].len() > 1).collect();
+    let never: Vec<usize> = (0..names).filter(|i| granted[*i].is_empty()).collect();
+    if !twice.is_empty() {
+        ctx.viol(
+            "C18:names:granted-to-two-processes",
+            "register returned Ok for the same free name to more than one process",
+            json!({"race": hid, "tasks": tasks, "names": names, "names_granted_more_than_once": twice.len(), "example": format!("r{} -> tasks {:?}", twice[0], granted[twice[0]])}),
+        );
+    } else if !never.is_empty() {
+        ctx.viol("C18:names:free-name-refused-to-everybody", "a free name was refused to every contender", json!({"race": hid, "names": never.len()}));
+    } else {
+        // the name resolves to the winner
+        let mut wrong = 0;
+        for i in (0..names).step_by(7) {
+            let w = &pids[granted[i][0]];
+            if node.whereis(&Atom::new(format!("r{}", i))).await.as_ref().map(key) != Some(key(w)) {
+                wrong += 1;
+            }
+        }
+        if wrong > 0 {
+            ctx.viol("C18:names:resolves-to-a-loser", "a name resolves to a process other than the one register granted it to", json!({"race": hid, "names_checked_wrong": wrong}));
+        }
+    }
+}
+
 async fn history(ctx: &Ctx, rng: &mut Rng, hid: usize, yields: bool) {
     ctx.beat(&format!("history/{}", hid));
     let log: Arc<Log> = Arc::new(Log::default());
@@ -707,7 +790,7 @@ async fn history(ctx: &Ctx, rng: &mut Rng, hid: usize, yields: bool) {
 }
 
 pub fn run(ctx: &Ctx) {
-    ctx.rule("histories = 3..8 recording processes, 2..6 driver tasks, 20..100 operations each over 1..3 contended names: numbered sends by pid and by name, register/unregister/whereis (call/return stamped from one counter), link/unlink on task-owned pairs, monitor/demonitor, gen_server and gen_event calls; then 1..2 processes are made to fail; offline checkers: per (sender, receiver) in-order duplicate-free complete delivery, exactly-once exit/monitor notices for links/monitors in force before the failure, dead pids and their names no longer resolve and names are reusable, per-name linearizability (exact search), one reply per behaviour call; on the multi-thread runtime additionally bursts of 400..3000 numbered messages from 1..3 senders to a process held busy behind a gate (around the mailbox capacity), handled exactly once and in each sender's order; multi-thread runtime and current-thread runtime with seeded yields at the exit-propagation hooks; evaluations = deliveries, notices, name operations and calls judged; distinct = distinct history configurations");
+    ctx.rule("histories = 3..8 recording processes, 2..6 driver tasks, 20..100 operations each over 1..3 contended names: numbered sends by pid and by name, register/unregister/whereis (call/return stamped from one counter), link/unlink on task-owned pairs, monitor/demonitor, gen_server and gen_event calls; then 1..2 processes are made to fail; offline checkers: per (sender, receiver) in-order duplicate-free complete delivery, exactly-once exit/monitor notices for links/monitors in force before the failure, dead pids and their names no longer resolve and names are reusable, per-name linearizability (exact search), one reply per behaviour call; 2..6 tasks racing to register the same 150..1200 fresh names (each granted exactly once, resolving to the winner); on the multi-thread runtime additionally bursts of 400..3000 numbered messages from 1..3 senders to a process held busy behind a gate (around the mailbox capacity), handled exactly once and in each sender's order; multi-thread runtime and current-thread runtime with seeded yields at the exit-propagation hooks; evaluations = deliveries, notices, name operations and calls judged; distinct = distinct history configurations");
     ctx.assume("links/monitors are compared as of a quiescent barrier before the failing message is sent; messages accepted after a process was sent its failing message are not required to be handled");
     let mut rng = Rng::derive(ctx.seed, 18, 1);
     let n = ctx.pick(60usize, 8000usize);
@@ -720,6 +803,9 @@ pub fn run(ctx: &Ctx) {
                     break;
                 }
                 history(ctx, &mut rng, i, true).await;
+                if i % 10 == 0 {
+                    name_race(ctx, &mut rng, 400_000 + i).await;
+                }
             }
         });
     }
@@ -734,6 +820,7 @@ pub fn run(ctx: &Ctx) {
                 history(ctx, &mut rng, 100_000 + i, false).await;
                 if i % 6 == 0 {
                     burst(ctx, &mut rng, 200_000 + i).await;
+                    name_race(ctx, &mut rng, 300_000 + i).await;
                 }
             }
         });
